@@ -896,6 +896,11 @@ class Exec(Sem):
         v = self.spec_body(sf.node.body, s2, sf)
         if isinstance(v, SV) and sf.ret != T.PYOBJ:
             v = self.coerce(v, sf.ret, "result of spec %s" % sf.name)
+        if isinstance(v, SV) and v.ty == T.BOOL and len(v.t) > 60:
+            from .core import Ctx as _Ctx
+            for cj in _Ctx.conjuncts(v.t):
+                if len(cj) > 60:
+                    self.cx.term_tags.setdefault(cj, sf.name)
         return k(st, v)
 
     def spec_body(self, stmts, st, sf):
